@@ -29,7 +29,12 @@ def load_detector(detector: Detector, filename: str | Path) -> None:
             f" '{type(detector).__name__}', expected '{type(new_detector).__name__}'"
         )
 
-    detector = new_detector
+    # Replace the data of the current detector by the data of the loaded detector
+    for name in ("_scene", "_photon", "_charge", "_pixel", "_signal", "_image", "_data"):
+        setattr(detector, name, getattr(new_detector, name))
+
+    if hasattr(new_detector, "_phase"):
+        detector._phase = new_detector._phase
 
 
 def save_detector(detector: Detector, filename: str | Path) -> None:
